@@ -57,7 +57,7 @@ type Tier struct {
 
 func TierOf(name string) Tier {
 	if name == "thorough" {
-		return Tier{"thorough", pipeline.RunOpts{D: 10, F: 96, H: 40, Cap: 20000, Inject: true}}
+		return Tier{"thorough", pipeline.RunOpts{D: 8, F: 64, H: 32, Cap: 4000, Inject: true}}
 	}
 	return Tier{"quick", pipeline.RunOpts{D: 6, F: 48, H: 24, Cap: 20000, Inject: true}}
 }
@@ -377,6 +377,55 @@ func blankImports(file string) []string {
 		if im.Name != nil && im.Name.Name == "_" {
 			p, _ := strconv.Unquote(im.Path.Value)
 			out = append(out, p)
+		}
+	}
+	return out
+}
+
+// DirectivesDropped compares, file by file, the compiler directives (`//go:embed`, `//go:noinline`,
+// `//go:linkname`, `//go:generate` excluded) of the source with those of the generated file: a
+// directive changes how the declaration it is attached to behaves, so losing it changes a bystander.
+func (fr *FamilyRun) DirectivesDropped() []core.Failure {
+	var fails []core.Failure
+	for _, b := range fr.Shards {
+		files, _ := filepath.Glob(filepath.Join(b.Dir, "src", "*.go"))
+		for _, f := range files {
+			want := directives(f)
+			if len(want) == 0 {
+				continue
+			}
+			outFile := filepath.Join(b.Dir, "out", filepath.Base(f))
+			if _, err := os.Stat(outFile); err != nil {
+				continue
+			}
+			have := map[string]int{}
+			for _, d := range directives(outFile) {
+				have[d]++
+			}
+			for _, d := range want {
+				if have[d] == 0 {
+					fails = append(fails, core.Failure{Key: fr.Spec.Name + ":" + filepath.Base(f) + ":" + d, Kind: "directive-dropped",
+						Detail: "compiler directive removed", What: "a compiler directive attached to a declaration of the source file is missing in the generated file",
+						Replay: map[string]any{"source_file": f, "generated_file": outFile}})
+				} else {
+					have[d]--
+				}
+			}
+		}
+	}
+	return fails
+}
+
+func directives(file string) []string {
+	b, err := os.ReadFile(file)
+	if err != nil {
+		return nil
+	}
+	var out []string
+	for _, l := range strings.Split(string(b), "\n") {
+		l = strings.TrimSpace(l)
+		if strings.HasPrefix(l, "//go:") && !strings.HasPrefix(l, "//go:build") && !strings.HasPrefix(l, "//go:generate") {
+			out = append(out, l)
 		}
 	}
 	return out
